@@ -2,7 +2,7 @@
 import io, itertools, traceback
 from fractions import Fraction as Fr
 from harness import gterm as G, geom
-from harness.fonts import build_font, gen_component_font, jsonable
+from harness.fonts import build_font, gen_component_font, jsonable, number_range_error
 
 PID = "C13"
 LEVEL_TEXT = ("Proof + correspondence: Coq theorems, for all glyph sets (non-singular component matrices, closed contours), all skip "
@@ -113,7 +113,7 @@ def explore(ctx):
             try:
                 compare_binaries(ctx, case, desc, skip, lib, i)
             except Exception as e:
-                if "format requires -32768" in str(e) or "does not fit in format" in str(e):
+                if number_range_error(e):
                     # nested scaled components pushed a coordinate beyond 16 bits: no font exists for this input, skipping or not
                     ctx.klass("outside_opentype_number_range_rejected")
                     continue
